@@ -134,6 +134,7 @@ def gen_case(seed, tier, opts=None):
     nev = g.wpick([(1, 5), (2, 2), (3, 1)])
     evs = []
     uses = []
+    specs = []
     for i in range(nev):
         start = t0 + g.rint(0, 86400 * 30)
         if g.chance(0.3):
@@ -175,14 +176,24 @@ def gen_case(seed, tier, opts=None):
         if g.chance(0.15):
             sp['setgid'] = g.pick(['100', 'users'])
         if g.chance(0.3):
-            sp['maxsimul'] = g.pick(['1', '2', '7', '62', '63'])
+            sp['maxsimul'] = g.pick(['1', '2', '7', '31', '62'])
         sp['extra_lines'] = lines
+        specs.append(sp)
         evs.append(ical.event_text(sp))
         # classes of the recorded known findings (several RRULEs, RDATE, EXDATE/EXRULE, SHIFT): the occurrences after
         # a round trip are known to differ; everything else (fields, no crash, a well-formed text) is still checked
         use['loose'] = bool(nr > 1 or use.get('rdate') or use.get('exdate') or use.get('exrule') or use.get('shift'))
         uses.append(use)
-    text = ical.calendar_text(evs)
+    cal = {}
+    if g.chance(0.35):
+        # calendar-level values: defaults for what an event leaves unset, nothing more
+        for key, vals in (('owner', ['1000', 'carol']), ('umask', ['027', '077', '0']), ('maxsimul', ['1', '3', '5']),
+                          ('setuid', ['1002', 'dave']), ('setgid', ['staff', '200'])):
+            if g.chance(0.5):
+                cal[key] = g.pick(vals)
+    text = ical.calendar_text(evs, cal=cal)
+    for u, sp in zip(uses, specs):
+        u['expect'] = expected_fields(sp, cal)
     ks = set([0, 1])
     for _ in range(3 if tier == 'quick' else 8):
         ks.add(g.wpick([(g.rint(2, 20), 3), (g.pick([31, 62, 63, 64, 65, 66]), 2), (g.pick([126, 127, 128, 129, 190]), 1),
@@ -196,6 +207,29 @@ def gen_case(seed, tier, opts=None):
                 if u['count'] + d >= 0 and g.chance(0.5):
                     ks.add(u['count'] + d)
     return text, sorted(ks), uses
+
+
+def nms(v):
+    """how the dump shows a number-or-name value"""
+    if v is None:
+        return '-'
+    return '#%d' % int(v) if str(v).isdigit() else '"%s"' % v
+
+
+def expected_fields(sp, cal):
+    """README field mapping, computed from the generator's spec (not by echse): what the parsed task must
+    hold.  Calendar-level values count only where the event has none of its own."""
+    def own_or_cal(k):
+        return sp.get(k) if sp.get(k) is not None else cal.get(k)
+    e = {'uid': '"%s"' % sp['uid'], 'owner': nms(own_or_cal('owner')), 'u': nms(own_or_cal('setuid')), 'g': nms(own_or_cal('setgid'))}
+    um = own_or_cal('umask')
+    e['umask'] = '%o' % int(str(um), 8) if um is not None else None      # unset: whatever the build's default is
+    ms = own_or_cal('maxsimul')
+    e['maxsimul'] = str(int(ms)) if ms is not None else '63'
+    for k, f in (('location', 'wd'), ('shell', 'sh'), ('ifile', 'in'), ('ofile', 'out'), ('efile', 'err')):
+        v = sp.get(k)
+        e[f] = '-' if v is None else None if any(c in v for c in '"\\\t') or any(ord(c) > 126 for c in v) else '"%s"' % v
+    return e
 
 
 TOK = re.compile(r' (\w+)=("(?:[^"\\]|\\.)*"|\[[^\]]*\]|\S+)')
@@ -253,11 +287,17 @@ def wellformed(text):
     return None
 
 
-def judge_task(t, K, loose=False):
+def judge_task(t, K, loose=False, expect=None):
     V = []
     if 'ctrl' not in t or 'orig' not in t:
         return [('R-MACHINERY rt', 'incomplete block')]
     fc, fo = fields_of(t['ctrl']), fields_of(t['orig'])
+    # read as written: what the parser made of the text against the README mapping
+    for k, want in sorted((expect or {}).items()):
+        if want is not None and fc.get(k) != want:
+            V.append(('R-RT read:' + k, 'the text assigns %s=%s (own value, else the calendar-level default), the parsed task has %s'
+                      % (k, want, fc.get(k))))
+            return V
     if t['k'] != t['kb']:
         V.append(('R-RT unstable', 'two parses of one text consumed %d and %d occurrences' % (t['k'], t['kb'])))
         return V
@@ -335,8 +375,9 @@ def crash_report(data, job):
         return 'no report: %r' % e
 
 
-def check_case(text, ks, strict=False):
-    """STRICT: compare occurrences of the known-finding classes too (their witnesses)"""
+def check_case(text, ks, strict=False, expects=None):
+    """STRICT: compare occurrences of the known-finding classes too (their witnesses);
+    EXPECTS: per task, the fields the text assigns (generator's knowledge)"""
     loose = [] if strict else loose_tasks(text)
     data = text.encode('latin1')
     kmax = max(ks)
@@ -370,7 +411,7 @@ def check_case(text, ks, strict=False):
             V.append(('R-CRASHFREE serialise-crash', 'rt %d: %s%s' % (k, last, (' in %s %s' % top[0]) if top else ''), k))
             continue
         for t in parse_rt(out):
-            for sig, detail in judge_task(t, k, t['i'] in loose):
+            for sig, detail in judge_task(t, k, t['i'] in loose, (expects or {}).get(t['i'])):
                 V.append((sig, 'task %d: %s\nwritten text:\n%s' % (t['i'], detail, t.get('text', '')), k))
     return V, '\n'.join(outs), info
 
@@ -378,7 +419,8 @@ def check_case(text, ks, strict=False):
 def run_seed(seed, tier, opts=None):
     text, ks, uses = gen_case(seed, tier, opts)
     loose = loose_tasks(text)
-    V, out, info = check_case(text, ks)
+    expects = {i: u['expect'] for i, u in enumerate(uses)}
+    V, out, info = check_case(text, ks, expects=expects)
     viol = []
     seen = set()
     for sig, detail, k in V:
@@ -387,7 +429,8 @@ def run_seed(seed, tier, opts=None):
         seen.add(sig)
         rule, s = sig.split(' ', 1)
         viol.append({'rule': rule, 'sig': s, 'detail': detail, 'prop': 'C05', 'input': text.encode('latin1').hex(),
-                     'sched': ','.join(str(x) for x in ([k] if k is not None else ks)), 'case': 'rt'})
+                     'sched': ','.join(str(x) for x in ([k] if k is not None else ks)), 'case': 'rt',
+                     'expects': {str(i): e for i, e in expects.items()}})
     probes = {}
     if loose:
         probes['known_finding_class_checked_loosely'] = len(loose)
@@ -414,7 +457,8 @@ def run_seed(seed, tier, opts=None):
 def replay(doc):
     text = bytes.fromhex(doc['input']).decode('latin1')
     ks = [int(x) for x in doc['sched'].split(',') if x != '']
-    V, _, _ = check_case(text, ks, bool(doc.get('strict')))
+    ex = {int(i): e for i, e in (doc.get('expects') or {}).items()}
+    V, _, _ = check_case(text, ks, bool(doc.get('strict')), ex)
     return [{'rule': s.split(' ', 1)[0], 'sig': s.split(' ', 1)[1], 'detail': d} for s, d, _ in V]
 
 
